@@ -221,6 +221,12 @@ func runCase(c Case) outcome {
 		ctx = context.Background()
 	case "deadline":
 		ctx, cancel = context.WithTimeout(context.Background(), 60*time.Millisecond)
+	case "cancel-dl": // a context that also carries a (far) deadline, cancelled explicitly
+		ctx, cancel = context.WithTimeout(context.Background(), 45*time.Second)
+	case "parent-cancel": // the parent of a deadline-carrying, value-carrying child is cancelled
+		parent, pcancel := context.WithCancel(context.Background())
+		child, ccancel := context.WithTimeout(context.WithValue(parent, ctxKey{}, 1), 45*time.Second)
+		ctx, cancel = child, func() { pcancel(); ccancel() }
 	default:
 		ctx, cancel = context.WithCancel(context.Background())
 	}
@@ -277,7 +283,7 @@ func runCase(c Case) outcome {
 	}()
 	var cancelledAt time.Time
 	switch c.Variant {
-	case "cancel":
+	case "cancel", "cancel-dl", "parent-cancel":
 		select {
 		case <-st.stalled:
 			o.stalledHit = true
@@ -322,6 +328,12 @@ func runCase(c Case) outcome {
 	return o
 }
 
+type ctxKey struct{}
+
+func stallVariant(v string) bool {
+	return v == "cancel" || v == "deadline" || v == "cancel-dl" || v == "parent-cancel"
+}
+
 func plain(role string) bool { return role == "sender" || role == "receiver" }
 
 func judge(c Case, o outcome, base outcome) string {
@@ -329,7 +341,7 @@ func judge(c Case, o outcome, base outcome) string {
 		// harness-level failure (e.g. could not establish the session)
 	}
 	switch c.Variant {
-	case "cancel", "deadline":
+	case "cancel", "deadline", "cancel-dl", "parent-cancel":
 		if !o.returned {
 			return fmt.Sprintf("the call never returned after its context was cancelled (stalled at %s #%d)", c.Kind, c.K)
 		}
@@ -404,7 +416,7 @@ func TestC19Stalls(t *testing.T) {
 		for _, v := range []string{"before", "after", "background"} {
 			jobs = append(jobs, job{Case{Shape: p.shape, Role: p.role, Variant: v}, base})
 		}
-		variants := []string{"cancel", "deadline"} // cheap enough to run at every index in both tiers
+		variants := []string{"cancel", "deadline", "cancel-dl", "parent-cancel"} // cheap enough to run at every index in both tiers
 		for _, v := range variants {
 			for k := 0; k < base.reads; k++ {
 				jobs = append(jobs, job{Case{Shape: p.shape, Role: p.role, Kind: "read", K: k, Variant: v}, base})
@@ -429,7 +441,7 @@ func TestC19Stalls(t *testing.T) {
 			defer func() { <-sem }()
 			o := runCase(j.c)
 			v := judge(j.c, o, j.base)
-			if v != "" && (j.c.Variant == "cancel" || j.c.Variant == "deadline") {
+			if v != "" && stallVariant(j.c.Variant) {
 				// re-run twice before a timing verdict counts
 				for r := 0; r < 2 && v != ""; r++ {
 					o = runCase(j.c)
@@ -442,7 +454,7 @@ func TestC19Stalls(t *testing.T) {
 				k = string(b)
 			}
 			ev.Case(j.c.Shape+"/"+j.c.Role+"/"+j.c.Variant, k)
-			if (j.c.Variant == "cancel" || j.c.Variant == "deadline") && !o.stalledHit {
+			if stallVariant(j.c.Variant) && !o.stalledHit {
 				ev.Class("stall-point-not-reached(inconclusive)")
 			}
 			if v != "" {
@@ -457,7 +469,7 @@ func TestC19Stalls(t *testing.T) {
 		}(j)
 	}
 	wg.Wait()
-	ev.Exhaustive("every Read index and every Write index of the baseline run of each (shape, role): 9 handshake shapes (6 completing, 3 ending in a refusal: DENIED for encryption, no common method, SID_NOT_FOUND) x {client, server} + plain {sender, receiver}; a cancel and a deadline at every index")
+	ev.Exhaustive("every Read index and every Write index of the baseline run of each (shape, role): 9 handshake shapes (6 completing, 3 ending in a refusal: DENIED for encryption, no common method, SID_NOT_FOUND) x {client, server} + plain {sender, receiver}; at every index: a cancel, an expiring deadline, an explicit cancel of a context that carries a far deadline, and a cancel of the parent of a deadline- and value-carrying child")
 }
 
 func TestC19Replay(t *testing.T) {
